@@ -7,9 +7,11 @@ Definition chain_case := (list vcode * list record * list record)%type.
 Definition chk_chain (c : chain_case) : bool :=
   let '(vs, xs, obs) := c in records_eqb (run (chain_list (map verb_of vs)) xs) obs.
 
-(* multi-file case: (mode, files, observed records each followed by its NR, FNR, FILENAME, FILENUM, observed NR in the end block) *)
-Definition mode_of (z : Z) : rmode := if z =? 1 then MHeader else if z =? 2 then MImplicit else MPairs.
-Definition files_case := (Z * list file * list (record * (Z * Z * bytes * Z)) * Z)%type.
+(* multi-file case: (options, files, observed records each followed by its NR, FNR, FILENAME, FILENUM, observed NR in the
+   end block or -1 when the run failed).  options = (mode, lite, dedupe, ragged) *)
+Definition mode_of (z : Z) : rmode := if z =? 1 then MHeader else if z =? 2 then MImplicit else if z =? 3 then MNidx else MPairs.
+Definition opts_of (t : Z * bool * bool * bool) : ropts := let '(m, l, d, r) := t in ROpts (mode_of m) l d r.
+Definition files_case := ((Z * bool * bool * bool) * list file * list (record * (Z * Z * bytes * Z)) * Z)%type.
 
 Fixpoint ctxs_ok (ms : list (record * context)) (os : list (record * (Z * Z * bytes * Z))) : bool :=
   match ms, os with
@@ -19,7 +21,9 @@ Fixpoint ctxs_ok (ms : list (record * context)) (os : list (record * (Z * Z * by
   | _, _ => false
   end.
 
+(* a failing read (header/data length mismatch) must be an error exit; what was printed before it is not compared *)
 Definition chk_files (c : files_case) : bool :=
-  let '(m, fs, obs, endnr) := c in
-  let '(s, out) := read_files (mode_of m) fs in
-  negb (rfailed s) && ctxs_ok out obs && (nr (rctx s) =? endnr).
+  let '(o, fs, obs, endnr) := c in
+  let '(s, out) := read_files (opts_of o) fs in
+  if rfailed s then endnr =? -1
+  else ctxs_ok out obs && (nr (rctx s) =? endnr).
